@@ -71,6 +71,9 @@ def make_payload(spec):
     if cls == 'str':
         rng = random.Random(seed)
         return ''.join(rng.choice('ab\n 12 utf8\n\tπé漢\U0001F600') for _ in range(size))
+    if cls == 'surr':      # text that is picklable but not UTF-8 encodable (lone surrogates, e.g. os.fsdecode of a latin-1 name)
+        rng = random.Random(seed)
+        return ''.join(rng.choice(['caf\udce9', 'a', '\n', ' 12 pickle\n', '\ud800', 'é']) for _ in range(max(1, min(size, 2000))))
     if cls == 'wrapped':   # a picklable object holding awkward bytes
         return {'blob': make_bytes('hdr', size, seed), 'n': size, 'tail': [b'\n', '\n']}
     return make_bytes(cls, size, seed)
